@@ -387,3 +387,13 @@ Proof.
   destruct ts as [|t r]; [congruence|]. intros _. cbn [ku_seq].
   destruct (kumount ks t 0); [destruct (ku_seq _ r) as [[? ?] ?]|]; intros H; injection H as _ _ <-; discriminate.
 Qed.
+
+Lemma ku_seq_sub ts : forall ks ok ks' iss, ku_seq ks ts = (ok, ks', iss) -> forall t, In t iss -> In t ts.
+Proof.
+  induction ts as [|t r IH]; intros ks ok ks' iss; cbn [ku_seq].
+  - intros H. injection H as _ _ <-. intros t [].
+  - destruct (kumount ks t 0) as [k1|].
+    + destruct (ku_seq k1 r) as [[ok1 k2] iss1] eqn:E. intros H. injection H as _ _ <-.
+      intros z [<-|Hz]; [now left|right]. eapply IH; eauto.
+    + intros H. injection H as _ _ <-. intros z [<-|[]]. now left.
+Qed.
